@@ -1,6 +1,6 @@
 SPECIFICATION GSpec
 CONSTANTS
-  Drivers = {"TR", "SPG", "AL", "BAL"}
+  Drivers = {"TR", "TRS", "SPG", "AL", "BAL"}
   Ks = {2}
   Ps <- PsSmall
   MaxSteps = 2
